@@ -27,6 +27,26 @@ DT = {k: np.dtype(k.lower()) for k in SC}
 _uid = itertools.count()
 
 
+class CapStr(str):
+    """Model value of a string created from an integer capacity: reads "" and keeps `cap` bytes of room."""
+
+    def __new__(cls, cap):
+        o = str.__new__(cls, "")
+        o.cap = int(cap)
+        return o
+
+    def __reduce__(self):
+        return (CapStr, (self.cap,))
+
+
+def max_fit(s):
+    """Largest utf-8 length that can later be assigned in place to a string created from `s`
+    (stored size = 8 + slot(len+1) for text, 8 + capacity for a capacity; an update needs 8 + slot(len+1))."""
+    if isinstance(s, CapStr):
+        return (s.cap + 8) // 8 * 8 - 9
+    return (len(s.encode("utf8")) + 1 + 7) // 8 * 8 - 1
+
+
 class AVal:
     """Array model value: shape + items by index tuple."""
 
@@ -241,7 +261,8 @@ def build(t, cache=None):
 # values
 # --------------------------------------------------------------------------
 class ValGen:
-    def __init__(self, rng, max_dyn=3, distinct=True, nulls=0.25, zero_dims=0.12):
+    def __init__(self, rng, max_dyn=3, distinct=True, nulls=0.25, zero_dims=0.12, cap_strings=0.0):
+        self.cap_strings = cap_strings
         self.rng, self.max_dyn, self.distinct = rng, max_dyn, distinct
         self.nulls, self.zero_dims = nulls, zero_dims
         self.ctr = rng.randint(1, 40)
@@ -276,6 +297,8 @@ class ValGen:
     def string(self):
         r = self.rng
         self.ctr += 1
+        if self.cap_strings and r.random() < self.cap_strings:
+            return CapStr(r.choice([8, 9, 10, 13, 15, 16, 17, 23, 24, 30]))
         x = r.random()
         if x < 0.12:
             return ""
@@ -322,8 +345,8 @@ class ValGen:
         if k == "str":
             n = len(mv.encode("utf8"))
             if caps is not None:
-                n0 = len(caps.encode("utf8"))
-                n = self.rng.choice([n0, n0, self.rng.randint(0, n0), max(0, n0 - 1), 0])
+                n0 = max_fit(caps)
+                n = self.rng.choice([n0, n0, self.rng.randint(0, n0), max(0, n0 - 1), 0, min(n0, n)])
             self.ctr += 1
             if caps is not None and n >= 4 and self.rng.random() < 0.3:
                 s = (f"{self.ctr}" + "\u00e9" * n)
@@ -383,7 +406,7 @@ def plain(t, mv, rng=None, np_scalars=False):
             return mv
         return mv.item()
     if k == "str":
-        return mv
+        return mv.cap if isinstance(mv, CapStr) else mv
     if k == "st":
         return {fn: plain(ft, mv[fn], rng, np_scalars) for fn, ft in t["f"]}
     if k == "ar":
